@@ -73,7 +73,7 @@ def robust_sample_std(x, axis):
     return winsorize_std(x, axis=-1)
 
 
-def boot_sigma(data, conf, num_iterations=10000, winsorize=False):
+def boot_sigma(data, conf, num_iterations=10000, winsorize=False, random_state=None):
     """
     Bootstrap standard deviation.
     """
@@ -84,7 +84,12 @@ def boot_sigma(data, conf, num_iterations=10000, winsorize=False):
         std_func = sample_std
 
     return bootstrap(
-        data.reshape(1, -1), std_func, confidence_level=conf, method="basic", n_resamples=num_iterations
+        data.reshape(1, -1),
+        std_func,
+        confidence_level=conf,
+        method="basic",
+        n_resamples=num_iterations,
+        random_state=random_state,
     ).confidence_interval.high
 
 
